@@ -31,7 +31,7 @@ ASSUMPTIONS = ["reference framing decides which byte ranges are frames; a frame 
                "documentation; generated payloads avoid 55 55 55 runs only where stated"]
 REQUIRED_OBS = ["unknown_type_delivered", "unknown_c0_sub_delivered", "unknown_ext_delivered",
                 "compared_with_reference", "malformed_reset_recovered", "long_stride_decoded",
-                "reframed_bodies"]
+                "reframed_bodies", "equal_check_byte_pairs"]
 BUDGET = {"quick": 100, "thorough": 1500}
 
 REGISTERED = {4: {0x1F, 0x2A, 0x2B, 0x2C, 0x2D, 0x36, 0x37}, 5: {0x1F, 0xC0}}
@@ -61,6 +61,11 @@ def cases(tier, seed):
     for gen in (4, 5):
         for name in sorted(F.catalogue(gen)):
             yield {"k": "reframed", "gen": gen, "kind": name, "seed": rnd.randrange(1 << 30)}
+    # consecutive frames that happen to carry the same check bytes (a CRC-16 collision) but
+    # differ in header or payload: each is read from its own bytes
+    for gen in (4, 5):
+        yield {"k": "collide", "gen": gen, "seed": rnd.randrange(1 << 30),
+               "n": 12 if tier == "quick" else 400}
     yield {"k": "stride", "seed": rnd.randrange(1 << 30), "n": 60 if tier == "quick" else 600}
     n = 150 if tier == "quick" else 60000
     for i in range(n):
@@ -167,6 +172,9 @@ def judge_stream(gen, stream, viol, obs, label, segs=None, must_deliver=False):
             ref = R.read_status(gen, f.typ, f.data)
         except R.Reject as e:
             obs["ref_rejects_repo_decodes"] = obs.get("ref_rejects_repo_decodes", 0) + 1
+            extra = X.records_beyond_announced(gen, f.typ, bytes(f.data), X.extract(gen, m))
+            if extra:
+                v("records-decoded-beyond-the-announced-count", frame=f.raw, extra_records=extra)
             continue
         if ref is R.UNDEC:
             obs["undecided"] = obs.get("undecided", 0) + 1
@@ -319,12 +327,74 @@ def run_case(case):
             judge_stream(5, fr, viol, obs, f"stride {st} sub {sub:#x}", must_deliver=True)
             n += 1
         sample = {"strides": "known+1..known+6", "n": case["n"]}
+    elif k == "collide":
+        gen = case["gen"]
+
+        def more(reg, data):
+            for byte in data:
+                reg ^= byte
+                for _ in range(8):
+                    reg = (reg >> 1) ^ 0xA001 if reg & 1 else reg >> 1
+            return reg
+
+        def with_crc(to, frm, pid, typ, body_prefix, target):
+            """A frame whose payload is body_prefix + two solved bytes so that its check
+            value equals `target`."""
+            ln = len(body_prefix) + 2
+            head = bytes([to, frm, pid, typ, ln >> 8, ln & 0xFF]) + body_prefix
+            reg0 = R.crc16(head)
+            for a in range(256):
+                if a == 0x55:
+                    continue
+                reg1 = more(reg0, bytes([a]))
+                for b in range(256):
+                    if b != 0x55 and more(reg1, bytes([b])) == target:
+                        return R.frame(gen, to, frm, pid, typ, body_prefix + bytes([a, b]))
+            return None
+
+        for _ in range(case["n"]):
+            # first frame: an unknown type or a status frame; second: an unknown type / unknown
+            # extended id / unknown 0xC0 sub type with the same check bytes
+            if rnd.random() < 0.5:
+                a_raw = R.frame(gen, R.ADDR_CLIENT, 0x80, rnd.randrange(256), 0x77,
+                                _noise(rnd, rnd.randint(2, 12)))
+            else:
+                a_raw = F.random_status_frame(gen, rnd)[1]
+            fa = R.parse_stream(gen, a_raw)[0][0]
+            target = (a_raw[-2] << 8) | a_raw[-1]
+            which = rnd.choice(["type", "ext", "c0"] if gen == 5 else ["type", "ext"])
+            if which == "type":
+                b_raw = with_crc(R.ADDR_CLIENT, 0x80, rnd.randrange(256), rnd.choice([0x77, 0x02]),
+                                 _noise(rnd, rnd.randint(0, 10)), target)
+            elif which == "ext":
+                b_raw = with_crc(R.ADDR_CLIENT, 0x90, rnd.randrange(256), 0x1F,
+                                 bytes([0xFF, 0x78]) + _noise(rnd, rnd.randint(0, 8)), target)
+            else:
+                b_raw = with_crc(R.ADDR_CLIENT, 0x80, rnd.randrange(256), 0xC0,
+                                 bytes([0x99, 0, 0, 2, 0, 0, 0, 0]), target)
+            if b_raw is None or b_raw[-2:] != a_raw[-2:] or b_raw == a_raw:
+                continue
+            judge_stream(gen, a_raw + b_raw + F.probe_frame(gen, 77), viol, obs,
+                         "two frames with equal check bytes")
+            obs["equal_check_byte_pairs"] = obs.get("equal_check_byte_pairs", 0) + 1
+            n += 1
+        sample = {"gen": gen, "pairs": n}
     elif k == "reframed":
         gen = case["gen"]
         f = R.parse_stream(gen, F.catalogue(gen)[case["kind"]])[0][0]
         body = bytes(f.data)
-        for ln in list(range(len(body))) + [len(body) + x for x in range(1, 7)]:
-            data = body[:ln] + _noise(rnd, max(0, ln - len(body)))
+        whole = []
+        if gen == 5 and f.typ == 0xC0 and len(body) >= 8:
+            rl = (body[4] << 8) | body[5]
+            if rl and len(body) >= 8 + rl:
+                # whole extra records behind the announced ones (count not updated)
+                whole = [body + body[8:8 + rl], body + body[8:8 + rl] * 2]
+        for ln in list(range(len(body))) + [len(body) + x for x in range(1, 7)] + whole:
+            if isinstance(ln, bytes):
+                data = ln
+                ln = len(data)
+            else:
+                data = body[:ln] + _noise(rnd, max(0, ln - len(body)))
             fr = R.frame(gen, f.to, f.frm, rnd.randrange(256), f.typ, data)
             judge_stream(gen, fr, viol, obs, f"{case['kind']} body {ln}/{len(body)} bytes")
             obs["reframed_bodies"] = obs.get("reframed_bodies", 0) + 1
